@@ -34,7 +34,8 @@
  *   - an invalid escape at a position where the decoder is certainly inside
  *     a frame is answered with -EILSEQ by a call ending between the offending
  *     octet and the next delimiter;
- *   - per call: octets emitted <= octets consumed;
+ *   - after every call of a decode sequence over one stream: octets emitted
+ *     so far <= octets consumed so far;
  *   - the source's end/error code and injected sink/source codes come back
  *     unchanged.
  *
@@ -341,7 +342,14 @@ static struct {
     bool hang, overflow;
     unsigned flags_after;
     int state_after;
+    unsigned char ctx_after[sizeof(RFC1055Context)]; /* the whole context, octet by octet */
 } R;
+
+/* E-STATE: the context image (all octets of the struct, as the library left
+ * them on a zeroed block) the next run_decoder call starts from; NULL: build
+ * the context from the arguments.  The harness never assumes which members
+ * the context has beyond `flags` and `state` being readable. */
+static const unsigned char *ctx_image_in;
 
 struct inject {
     long src_at, snk_at;
@@ -350,24 +358,32 @@ struct inject {
 static const struct inject NO_INJECT = { -1, -1, 0 };
 
 /* Calls rfc1055_decode until the source reports its end code.  The context
- * the decoder starts in: rfc1055_context_init(flags0) when use_init_fn, the
- * header's static initialiser when state0 < 0, else the literal (flags0,
- * state0) of an explicit-state search node. */
+ * the decoder starts in: the image ctx_image_in of an explicit-state search
+ * node when set; else rfc1055_context_init(flags0) when use_init_fn, the
+ * header's static initialiser when state0 < 0, else rfc1055_context_init(flags0)
+ * with only `state` overwritten by state0.  The block is zeroed first, so the
+ * context image after the run is deterministic. */
 static void
 run_decoder(unsigned flags0, int state0, bool use_init_fn, enum kind kind,
             const unsigned char *stream, size_t len, struct inject inj)
 {
     unsigned char *in = mc_exact_copy(stream, len);
     RFC1055Context *ctx = mc_exact(sizeof *ctx);
-    if (use_init_fn) {
+    memset(ctx, 0, sizeof *ctx);
+    if (ctx_image_in) {
+        memcpy(ctx, ctx_image_in, sizeof *ctx);
+    } else if (use_init_fn) {
         rfc1055_context_init(ctx, flags0);
     } else if (state0 < 0) {
         /* the header's static initialisers */
         const RFC1055Context c0 = RFC1055_CONTEXT_INIT_DEFAULT;
         const RFC1055Context c1 = RFC1055_CONTEXT_INIT_WITH_SOF;
-        *ctx = (flags0 & RFC1055_WITH_SOF) ? c1 : c0;
+        if (flags0 & RFC1055_WITH_SOF)
+            memcpy(ctx, &c1, sizeof *ctx);
+        else
+            memcpy(ctx, &c0, sizeof *ctx);
     } else {
-        ctx->flags = flags0;
+        rfc1055_context_init(ctx, flags0);
         ctx->state = state0;
     }
     struct src s;
@@ -416,6 +432,7 @@ run_decoder(unsigned flags0, int state0, bool use_init_fn, enum kind kind,
     }
     R.flags_after = ctx->flags;
     R.state_after = (int)ctx->state;
+    memcpy(R.ctx_after, ctx, sizeof *ctx);
     free(ctx);
     free(in);
 }
@@ -518,9 +535,11 @@ judge(bool sof, bool initial, bool faulted, const unsigned char *st, size_t len,
         } else if (c->rc == -EILSEQ) {
             v.eilseq++;
         }
-        if (c->olen > c->off1 - c->off0)
-            mc_fail("C12/emits-at-most-consumed", "call %d consumed %zu octets and emitted %zu",
-                    i, c->off1 - c->off0, c->olen);
+        /* cumulative over the call sequence on this stream (sink and source
+         * both start at 0): a decoder may hold octets back across calls */
+        if (c->o0 + c->olen > c->off1)
+            mc_fail("C12/emits-at-most-consumed", "after call %d the decoder has consumed %zu octets and emitted %zu",
+                    i, c->off1, c->o0 + c->olen);
         const bool last = (i == R.n - 1);
         if (c->sfired || c->kfired)
             continue; /* judged by the fault family */
@@ -877,7 +896,10 @@ family_pairs(size_t maxlen)
                     }
 }
 
-/* RFC1055_WORST_CASE is the statement's bound */
+/* RFC1055_WORST_CASE dimensions buffers for the statement's bound: a value
+ * below 2n+1 (2n+2) would let a worst-case encoding overflow them; a larger
+ * (conservative) value is fine - the statement bounds the encoding, not the
+ * macro */
 static void
 family_macro(void)
 {
@@ -887,8 +909,8 @@ family_macro(void)
         for (size_t n = 0; n <= 1100; ++n) {
             const size_t w = sof ? RFC1055_WORST_WITHSOF(n) : RFC1055_WORST_CLASSIC(n);
             const size_t g = RFC1055_WORST_CASE(n, sof != 0);
-            if (w != 2 * n + (sof ? 2 : 1) || g != w) {
-                mc_fail("C12/worst-case-macro", "RFC1055_WORST_CASE(%zu,%s) = %zu / %zu, the bound is %zu",
+            if (w < 2 * n + (sof ? 2 : 1) || g < 2 * n + (sof ? 2 : 1)) {
+                mc_fail("C12/worst-case-macro", "RFC1055_WORST_CASE(%zu,%s) = %zu / %zu is below the worst-case encoding length %zu",
                         n, sof ? "true" : "false", g, w, 2 * n + (sof ? 2 : 1));
                 break;
             }
@@ -1226,10 +1248,16 @@ main(int argc, char **argv)
 /* ========================================================================= */
 /* E-STATE: search over the decoder context                                   */
 
+/* a search node is the whole context image, not a selection of members */
 struct key {
-    uint32_t flags;
-    int32_t state;
+    unsigned char image[sizeof(RFC1055Context)];
 };
+
+static void
+key_ctx(const struct key *k, RFC1055Context *out)
+{
+    memcpy(out, k->image, sizeof *out);
+}
 
 static const char *
 statename(int s)
@@ -1289,41 +1317,48 @@ main(int argc, char **argv)
 
     struct mc_set set;
     mc_set_init(&set);
-    /* the two initial contexts, produced by the library itself */
+    /* the two initial contexts, produced by the library itself on a zeroed block */
+    struct key init_key[2];
     for (int sof = 0; sof < 2; ++sof) {
         RFC1055Context c;
         memset(&c, 0, sizeof c);
         rfc1055_context_init(&c, sof ? RFC1055_WITH_SOF : RFC1055_DEFAULT);
-        struct key k0;
-        memset(&k0, 0, sizeof k0);
-        k0.flags = c.flags;
-        k0.state = (int32_t)c.state;
-        mc_set_add(&set, &k0, sizeof k0, -1, -1, NULL);
+        memset(&init_key[sof], 0, sizeof init_key[sof]);
+        memcpy(init_key[sof].image, &c, sizeof c);
+        mc_set_add(&set, &init_key[sof], sizeof init_key[sof], -1, -1, NULL);
     }
     for (int64_t cur = 0; cur < (int64_t)set.n; ++cur) {
         struct key k;
         memcpy(&k, mc_set_key(&set, cur), sizeof k);
-        const bool sof = (k.flags & RFC1055_WITH_SOF) != 0;
-        const bool initial = k.state == (sof ? RFC1055_SEARCH_FOR_START : RFC1055_NORMAL);
+        RFC1055Context kc;
+        key_ctx(&k, &kc);
+        const bool sof = (kc.flags & RFC1055_WITH_SOF) != 0;
+        /* "initial" = exactly what a fresh rfc1055_context_init produces */
+        const bool initial = memcmp(&k, &init_key[sof], sizeof k) == 0;
         char path[200];
         path_text(&set, cur, path, sizeof path);
         for (int op = 0; op < nops; ++op) {
             unsigned char st[16];
             size_t len;
             op_string(op, st, &len);
-            mc_case("context mode=%s state=%s reached-by=[%s] stream=%s", modename(sof),
-                    statename(k.state), path, hex(st, len));
-            run_decoder(k.flags, k.state, false, K_OCTET, st, len, NO_INJECT);
+            mc_case("context mode=%s state=%s%s reached-by=[%s] stream=%s", modename(sof),
+                    statename((int)kc.state),
+                    (!initial && kc.state == (sof ? RFC1055_SEARCH_FOR_START : RFC1055_NORMAL))
+                        ? "(other members differ from the initial context)" : "",
+                    path, hex(st, len));
+            ctx_image_in = k.image;
+            run_decoder(kc.flags, (int)kc.state, false, K_OCTET, st, len, NO_INJECT);
+            ctx_image_in = NULL;
             struct verdict v = judge(sof, initial, false, st, len, -1);
             struct key nk;
             memset(&nk, 0, sizeof nk);
-            nk.flags = R.flags_after;
-            nk.state = R.state_after;
+            memcpy(nk.image, R.ctx_after, sizeof nk.image);
             if (!R.hang && !R.overflow)
                 mc_set_add(&set, &nk, sizeof nk, cur, op, NULL);
-            const char *o = nk.state == RFC1055_NORMAL ? (v.eilseq ? "to-normal-via-eilseq" : "to-normal")
-                : nk.state == RFC1055_SEARCH_FOR_END ? "to-search-for-end"
-                : nk.state == RFC1055_SEARCH_FOR_START ? (v.nonempty ? "to-search-for-start-delivering" : "to-search-for-start")
+            const int ns = R.state_after;
+            const char *o = ns == RFC1055_NORMAL ? (v.eilseq ? "to-normal-via-eilseq" : "to-normal")
+                : ns == RFC1055_SEARCH_FOR_END ? "to-search-for-end"
+                : ns == RFC1055_SEARCH_FOR_START ? (v.nonempty ? "to-search-for-start-delivering" : "to-search-for-start")
                 : "to-unknown-state";
             mc_end(v.deliveries + v.eilseq > 0, o);
         }
@@ -1335,7 +1370,7 @@ main(int argc, char **argv)
     mc.states += (int64_t)set.n;
     char bound[200];
     snprintf(bound, sizeof bound,
-             "every (flags,state) context reachable from both initial contexts, every stream of length 0..%zu over {41,c0,db,dc,dd} decoded to exhaustion from each, to fixpoint (%zu contexts)",
+             "every context image reachable from both initial contexts, every stream of length 0..%zu over {41,c0,db,dc,dd} decoded to exhaustion from each, to fixpoint (%zu contexts)",
              maxlen, set.n);
     mc_set_free(&set);
     mc_finish(true, bound);
